@@ -1,10 +1,11 @@
 META = dict(
     engine='cosched+seqx',
     technique='stateless model checking: preemption-bounded exhaustive schedule enumeration (CHESS) of the real parsec_hash_table.c with forced resizes, brute-force linearizability against a sequential map; plus BFS over all sequential operation histories against a reference map',
-    level_text='E1: every schedule with <= b preemptions (quick: b=2 for four 2-thread scripts, b=1 for the six larger ones; thorough: b=3 for the 2-thread, b=2 for the 3-thread scripts) of ten 2-3 thread scripts (insert/find/remove/find-or-insert under lock_bucket) over the real table with nb_bits=1, max_collisions_hint=1 and colliding key hashes, so that resizes and migrations out of old tables happen inside the explored window; each history is checked for linearizability against a map with unique keys, and at quiescence for_all visits each stored element once, no table was unlinked while non-empty, every lock is free. E2: all sequential histories up to depth 6 (quick) / closure (thorough) over 5 keys with hints 1 and 2, reference map + structural invariants after every operation.',
+    level_text='E1: every schedule with <= b preemptions (quick: b=2 for four 2-thread scripts, b=1 for the six larger ones; thorough: b=3 for the 2-thread, b=2 for the 3-thread scripts) of twelve hand-written 2-3 thread scripts (insert/find/remove/find-or-insert under lock_bucket) over the real table with nb_bits=1, max_collisions_hint=1 and colliding key hashes, so that resizes and migrations out of old tables happen inside the explored window; plus GENERATED script families: all scripts pre-state x T0 ops || T1 ops (|| T2) over the alphabet {insert, find, remove, find-or-insert} x keys {1,2,7} (1|2 split by the first resize, 2|7 never split) and five pre-states (empty, one item, just resized, resized + one item migrated, three table generations), minus contract violations, up to thread / key symmetry - quick: shape (1,1) all pre-states at b=1, shapes (1,1) at b=2 and (2,1) at b=1 from the resize-imminent pre-state, each under a wall budget; thorough: (1,1) b=2 on seven pre-states and keys {1,2,7,5}, (2,1) b=1 and b=2, (1,1,1) b=1, (2,2) b=2, budget-cut (evidence: scripts generated / filtered / explored). Each history is checked for linearizability against a map with unique keys, and at quiescence for_all visits each stored element once, no table was unlinked while non-empty, every lock is free. E2: all sequential histories up to depth 6 (quick) / closure (thorough) over 5 keys with hints 1 and 2, reference map + structural invariants after every operation.',
     level_note='Sequential consistency at instrumented accesses (gcc -fsanitize=thread instrumentation + own runtime); 2-3 threads, <= 2 operations per thread; the property text speaks of 1..16 threads: only 2-3 are explored, exhaustively within the preemption bound.',
 )
-RULE = ("cosched: every schedule of each 2-3 thread script over the real hash table with at most b preemptions "
+RULE = ("cosched: every schedule of each 2-3 thread script (hand-written, and every script of the generated families 'family/gen_*': see the leg's "
+        "spec, scripts_generated / _after_contract / _after_relevance / _after_symmetry / _explored / _completed) over the real hash table with at most b preemptions "
         "(scheduling points = every instrumented access to the table's rwlock, rw_hash pointer, every table's next/used_buckets, "
         "all bucket arrays and the items' links, plus the blocking hooks); a schedule is non-trivial when it contains at least one "
         "preemption; states = nodes of the explored schedule tree. seqx: BFS over operation histories deduplicated by the canonical "
@@ -12,7 +13,8 @@ RULE = ("cosched: every schedule of each 2-3 thread script over the real hash ta
 ASSUME = ["sequential consistency at instrumented accesses (no weak-memory effects)",
           "gcc -fsanitize=thread instrumentation reports every access to the watched objects",
           "usage contract respected: insert is never called for a key that is present",
-          "2-3 threads with 1-2 operations each (not 16 threads)"]
+          "2-3 threads with 1-2 operations each (not 16 threads)",
+          "generated families: a wall budget bounds each family; scripts_explored < scripts_after_symmetry means the family was cut (exhaustive:false for that leg)"]
 
 
 def build_conc(ctx):
@@ -36,23 +38,133 @@ def conc(ctx, exe, names, bound, deadline, label):
     return ctx.run_engine(exe, args, label=label, timeout=deadline + 600, env=env)
 
 
+# ---- generated (bounded-exhaustive) script families: see "Generated script families" in NOTES.md and the comment in ht_conc.c ----
+# (label, spec, preemption bound, wall budget in s, scripts per engine invocation, order, seconds a started script may always use)
+#   a batch is started only while the budget lasts; once started, each of its scripts may use 'allow' seconds (bounded overrun)
+#   order 'seq'    = family order (pre-state, then operations; simplest first), a budget cut leaves a prefix explored;
+#   order 'spread' = the batches are visited in bit-reversed order, so that a budget cut leaves an even, deterministic subset of the
+#                    family explored (for the families that cannot complete)
+K3 = 'keys=127;ops=ifro'
+FAMILIES = {
+    'quick': [
+        ('gen_11_b1', 'shape=1,1;%s;pre=01234;void=1' % K3, 1, 12, 8, 'seq', 1.5),
+        ('gen_21_b1_P1', 'shape=2,1;%s;pre=1;void=0' % K3, 1, 16, 8, 'seq', 1.5),
+        ('gen_11_b2_P1', 'shape=1,1;%s;pre=1;void=0' % K3, 2, 12, 1, 'seq', 10),
+    ],
+    'thorough': [
+        ('gen_11_b2', 'shape=1,1;keys=1275;ops=ifro;pre=1234056;void=1', 2, 120, 4, 'seq', 6),
+        ('gen_21_b1', 'shape=2,1;%s;pre=12340;void=0' % K3, 1, 90, 24, 'seq', 1),
+        ('gen_21_b2', 'shape=2,1;%s;pre=123;void=0' % K3, 2, 110, 2, 'seq', 8),
+        ('gen_111_b1', 'shape=1,1,1;%s;pre=12;void=0' % K3, 1, 50, 1, 'seq', 15),
+        ('gen_22_b2', 'shape=2,2;%s;pre=1;void=0' % K3, 2, 50, 1, 'spread', 20),
+    ],
+}
+
+
+def bitrev_order(n):
+    if n <= 1:
+        return list(range(n))
+    w = (n - 1).bit_length()
+    return [j for j in (int(format(i, '0%db' % w)[::-1], 2) for i in range(1 << w)) if j < n]
+
+
+def gen_family(ctx, exe, label, spec, bound, budget, batch, order, allow, procs, jobs):
+    """Explore one generated family: the harness enumerates it (--gen-list), ranges of it are explored by parallel engine
+    invocations until everything is done or the wall budget is used up; one aggregated evidence leg."""
+    import os, sys, json, subprocess, time, statistics
+    from concurrent.futures import ThreadPoolExecutor
+    from vlib import OUT
+    env = dict(os.environ); env['C32_GEN'] = spec
+    r = subprocess.run([exe, '--gen-list'], env=env, capture_output=True, text=True)
+    if r.returncode != 0:
+        ctx.broken.append('%s: --gen-list failed: %s' % (label, r.stderr[-500:])); return
+    fam = json.loads(r.stdout)
+    n = fam['after_symmetry']
+    t0 = time.time(); t_end = t0 + budget
+    ranges = [(lo, min(n, lo + batch)) for lo in range(0, n, batch)]
+    if order == 'spread':
+        ranges = [ranges[i] for i in bitrev_order(len(ranges))]
+    mine = '%s@' % label
+    nviol0 = len(ctx.violations)
+    def one(rg):
+        left = t_end - time.time()
+        if left < 1.0 or len(ctx.violations) > nviol0:
+            return None                      # budget used up (or a violation is already reported): this range is not explored (exhaustive:false)
+        e = dict(env); e['C32_GEN'] = '%s;range=%d:%d' % (spec, rg[0], rg[1])
+        dl = max(2, int(left), int(allow * (rg[1] - rg[0])))
+        ctx.run_engine(exe, ['--bound', str(bound), '--jobs', str(jobs), '--outdir', OUT, '--deadline', str(dl)], label='%s%d' % (mine, rg[0]), timeout=dl + 300, env=e)
+        return rg
+    with ThreadPoolExecutor(max_workers=procs) as ex:
+        done = [x for x in ex.map(one, ranges) if x]
+    legs = [l for l in ctx.legs if str(l.get('leg', '')).startswith(mine)]
+    ctx.legs[:] = [l for l in ctx.legs if not str(l.get('leg', '')).startswith(mine)]
+    pos = {nm: i for i, nm in enumerate(fam['scripts'])}
+    legs.sort(key=lambda l: pos.get(l['name'], 0))
+    complete = [l for l in legs if l.get('exhaustive')]
+    outs = [int(l.get('distinct_outcomes', 0)) for l in (complete or legs)]      # outcome statistics over the scripts that completed their bound
+    samples = []
+    for l in sorted(legs, key=lambda l: -int(l.get('distinct_outcomes', 0)))[:2] + legs[:1]:
+        for sm in l.get('samples', [])[:1]:
+            samples.append(dict(sm, script=l['name']))
+    nex = sum(int(l.get('executions', 0)) for l in legs)
+    ctx.add_leg(name=label, leg='family', engine='cosched', spec=spec, bound=bound, order=order,
+                alphabet=fam['alphabet'], scripts_generated=fam['generated'], scripts_after_contract=fam['after_contract'],
+                scripts_after_relevance=fam['after_relevance'], scripts_after_symmetry=n,
+                scripts_explored=len(legs), scripts_completed=len(complete),
+                states=sum(int(l.get('states', 0)) for l in legs), transitions=sum(int(l.get('transitions', 0)) for l in legs),
+                executions=nex, nontrivial=sum(int(l.get('nontrivial', 0)) for l in legs),
+                distinct_outcomes=sum(outs), outcomes_per_script=dict(min=min(outs), median=statistics.median(outs), max=max(outs)) if outs else {},
+                single_outcome_scripts=sum(1 for o in outs if o <= 1), max_points=max([int(l.get('max_points', 0)) for l in legs] or [0]),
+                exhaustive=(len(complete) == n), violations=sum(int(l.get('violations', 0)) for l in legs),
+                explored_ranges=[list(x) for x in sorted(done)] if order == 'spread' else [[0, max([x[1] for x in done] or [0])]],
+                wall_s=round(time.time() - t0, 2), samples=samples)
+    sys.stderr.write('C32 family %s (bound %d): %d generated, %d after contract, %d after relevance, %d after symmetry; explored %d (complete %d), %d schedules, outcomes/script min %s max %s, %d single-outcome, %.1fs\n'
+                     % (label, bound, fam['generated'], fam['after_contract'], fam['after_relevance'], n, len(legs), len(complete),
+                        nex, min(outs) if outs else '-', max(outs) if outs else '-', sum(1 for o in outs if o <= 1), time.time() - t0))
+    # vacuity guard: a family whose scripts all have a single outcome collides with nothing
+    if legs and max(outs) <= 1 and not sum(int(l.get('violations', 0)) for l in legs):
+        ctx.broken.append('%s: every script of the family has a single outcome: the alphabet collides with nothing' % label)
+
+
+def families(ctx, exe):
+    import os
+    from vlib import NJOBS
+    procs = max(1, min(8, NJOBS)); jobs = max(1, min(2, NJOBS // procs))      # 16 cores: 8 invocations x 2 workers
+    fams = FAMILIES[ctx.tier]
+    if os.environ.get('C32_FAMILIES'):     # development: "label|spec|bound|budget|batch|order|allow;;..."
+        fams = [(a, b, int(c), float(d), int(e), f, float(g)) for a, b, c, d, e, f, g in (x.split('|') for x in os.environ['C32_FAMILIES'].split(';;'))]
+    # quick tier on a loaded machine: when the legs before took long, the family budgets shrink (down to 40 %: fewer batches are started; a started script always gets its 'allow') so that the tier stays bounded;
+    # the evidence then shows scripts_explored < scripts_after_symmetry
+    import time
+    scale = 1.0 if ctx.tier != 'quick' else min(1.0, max(0.4, (110.0 - (time.time() - ctx.t0)) / 40.0))
+    for label, spec, bound, budget, batch, order, allow in fams:
+        gen_family(ctx, exe, label, spec, bound, budget * scale, batch, order, allow, procs, jobs)
+
+
 def check(ctx):
+    import os
     quick = ctx.tier == 'quick'
-    seq = build_seq(ctx)
-    ctx.run_engine(seq, ['--outdir', '/verif/out', '--deadline', '20' if quick else '300'] + ([] if quick else ['--thorough']), label='ht_seq', timeout=900)
+    only = os.environ.get('C32_ONLY', '')        # development switch: 'gen' = generated families only, 'hand' = hand-picked scripts only, 'seq'
+    if only in ('', 'seq'):
+        seq = build_seq(ctx)
+        ctx.run_engine(seq, ['--outdir', '/verif/out', '--deadline', '20' if quick else '300'] + ([] if quick else ['--thorough']), label='ht_seq', timeout=900)
     exe = build_conc(ctx)
-    if quick:
-        # one invocation per script (the engine's deadline is per invocation): every script completes bound 1 even on a loaded machine
-        for s in TWO:
-            conc(ctx, exe, [s], 2, 9, 'b2_' + s)
-        for s in TWO_BIG + THREE:
-            conc(ctx, exe, [s], 1, 7, 'b1_' + s)
-    else:
-        # one invocation per script so that every script gets its own share of the thorough budget (the engine's deadline is per invocation)
-        for s in TWO + TWO_BIG:
-            conc(ctx, exe, [s], 3, 100, 'b3_' + s)
-        for s in THREE:
-            conc(ctx, exe, [s], 2, 100, 'b2_' + s)
+    if only in ('', 'hand'):
+        if quick:
+            # one invocation per script (the engine's deadline is per invocation): every script completes bound 1 even on a loaded machine
+            for s in TWO:
+                conc(ctx, exe, [s], 2, 9, 'b2_' + s)
+            for s in TWO_BIG + THREE:
+                conc(ctx, exe, [s], 1, 7, 'b1_' + s)
+        else:
+            # one invocation per script so that every script gets its own share of the thorough budget (the engine's deadline is per invocation);
+            # 60 s each (was 100 s) since the generated families take 480 s of the same thorough budget
+            for s in TWO + TWO_BIG:
+                conc(ctx, exe, [s], 3, 60, 'b3_' + s)
+            for s in THREE:
+                conc(ctx, exe, [s], 2, 60, 'b2_' + s)
+    if only in ('', 'gen'):
+        families(ctx, exe)
     return ctx.finish(RULE, ASSUME)
 
 
